@@ -123,10 +123,24 @@ func zzActionBit(a UpsertAction) byte {
 // vanilla rules, to exactly the intended values for every entry.
 func VerifHarness_UpsertVanillaDecode() {
 	zz.MaxLen(2)
-	maxActions, maxEntries := 2, 1
 	if zz.Thorough() {
-		maxActions, maxEntries = 3, 2
+		zzUpsertCheck(3, 1, 2)
+	} else {
+		zzUpsertCheck(2, 1, 1)
 	}
+}
+
+// The same with several entries in one update (every entry carries the action data in the fixed order).
+func VerifHarness_UpsertSeveralEntries() {
+	zz.MaxLen(2)
+	if zz.Thorough() {
+		zzUpsertCheck(2, 3, 3)
+	} else {
+		zzUpsertCheck(2, 2, 2)
+	}
+}
+
+func zzUpsertCheck(maxActions, minEntries, maxEntries int) {
 	nActions := 1 + zz.Choose(maxActions)
 	var set []UpsertAction
 	var mask byte
@@ -136,7 +150,7 @@ func VerifHarness_UpsertVanillaDecode() {
 		mask |= zzActionBit(a)
 		set = append(set, a)
 	}
-	nEntries := 1 + zz.Choose(maxEntries)
+	nEntries := minEntries + zz.Choose(maxEntries-minEntries+1)
 	u := &Upsert{ActionSet: set}
 	for i := 0; i < nEntries; i++ {
 		e := &Entry{GameMode: int(zz.Byte() & 3), Listed: zz.Bool(), Latency: int(zz.Int16()), ListOrder: int(zz.Int16()), ShowHat: zz.Bool()}
